@@ -34,7 +34,7 @@ def splitEmptyLoop (limit : Nat) : Bytes → Nat → List Bytes
 
 /-- main loop: runs while at least `sep.size()` bytes remain -/
 def splitStrLoop (sep : Bytes) (limit : Nat) (rest cur : Bytes) (count : Nat) : List Bytes :=
-  if h : rest.length < sep.length ∨ sep.length = 0 then [cur ++ rest]   -- emplace_back(last, str.end())
+  if _h : rest.length < sep.length ∨ sep.length = 0 then [cur ++ rest]   -- emplace_back(last, str.end())
   else if sep.isPrefixOf rest then                         -- std::equal(sep.begin(), sep.end(), it)
     if count + 1 ≥ limit then [cur ++ rest]
     else cur :: splitStrLoop sep limit (rest.drop sep.length) [] (count + 1)
